@@ -14,13 +14,13 @@ GUARD = "CPPCMS_VERIF"
 COMMON_WARN = "-w"
 FLAVORS = {
     "asan": dict(cxx="g++", cc="gcc",
-                 flags="-O1 -g -fno-omit-frame-pointer -fsanitize=address,undefined "
+                 flags="-O1 -g -fno-omit-frame-pointer -fsanitize=address,undefined -fno-sanitize=nonnull-attribute "
                        "-fno-sanitize-recover=all -D%s" % GUARD),
     "tsan": dict(cxx="g++", cc="gcc",
                  flags="-O1 -g -fno-omit-frame-pointer -fsanitize=thread -D%s" % GUARD),
     "plain": dict(cxx="g++", cc="gcc", flags="-O2 -g -D%s" % GUARD),
     "fuzz": dict(cxx="clang++-14", cc="clang-14",
-                 flags="-O1 -g -fno-omit-frame-pointer -fsanitize=fuzzer-no-link,address,undefined "
+                 flags="-O1 -g -fno-omit-frame-pointer -fsanitize=fuzzer-no-link,address,undefined -fno-sanitize=nonnull-attribute "
                        "-fno-sanitize-recover=all -fno-sanitize=object-size -D%s" % GUARD,
                  link_extra="-fsanitize=fuzzer"),
 }
@@ -81,12 +81,16 @@ def build_libs(flavor):
     f = FLAVORS[flavor]
     d = flavor_dir(flavor)
     os.makedirs(d, exist_ok=True)
-    if not os.path.exists(os.path.join(d, "build.ninja")):
-        flags = f["flags"] + " " + COMMON_WARN
+    flags = f["flags"] + " " + COMMON_WARN
+    stamp = os.path.join(d, ".verif-flags")
+    old = open(stamp).read() if os.path.exists(stamp) else None
+    if not os.path.exists(os.path.join(d, "build.ninja")) or old != flags:
         _run(["cmake", "-G", "Ninja", "-S", REPO, "-B", d,
               "-DCMAKE_BUILD_TYPE=None", "-DDISABLE_SHARED=ON",
               "-DCMAKE_CXX_COMPILER=" + f["cxx"], "-DCMAKE_C_COMPILER=" + f["cc"],
               "-DCMAKE_CXX_FLAGS=" + flags, "-DCMAKE_C_FLAGS=" + flags])
+        with open(stamp, "w") as fp:
+            fp.write(flags)
     _run(["ninja", "-C", d, "cppcms-static", "booster-static"])
 
 
